@@ -257,7 +257,7 @@ EXHAUSTIVE_TEMPLATES = [
 
 
 def run(ck):
-    n = 220 if ck.quick() else 1500
+    n = 220 if ck.quick() else 600
     if not S.lean_and_build(ck, "RlModel.Thm.C10", THEOREMS, "drv_c10", "c10"):
         return ck.finish(level="proof", trusted_base=S.TRUSTED)
     cases = S.corpus_cases("C10") + S.gen_cases(ck, "c10", n)
